@@ -19,7 +19,10 @@ import (
 	"strings"
 	"time"
 
+	"gitlab.com/yawning/obfs4.git/common/drbg"
+	"gitlab.com/yawning/obfs4.git/common/probdist"
 	"gitlab.com/yawning/obfs4.git/transports/obfs4"
+	"gitlab.com/yawning/obfs4.git/transports/obfs4/framing"
 
 	"verif/harness/o4h"
 	"verif/harness/vlib"
@@ -35,6 +38,7 @@ type ccase struct {
 	SrvPad    string `json:"srv_pad"`
 	ChunkUp   string `json:"chunk_up"`   // chunking of the client handshake
 	ChunkDown string `json:"chunk_down"` // chunking of the server response
+	HourOff   int    `json:"hour_off"` // lc-rs: the reference client's clock, rc-ls: the reference server's clock, relative to the real one
 	NWrites   int    `json:"n_writes"`
 	Big       bool   `json:"big"` // include a 64 KiB write
 }
@@ -261,6 +265,125 @@ func writeLimit(iat int) time.Duration {
 	return 90 * time.Second
 }
 
+
+// encMixed: the reference peer sends payload p the way the deployed FORMAT allows and the Go
+// sender never does: packets carrying payload AND padding (payload 1/max/any with padding
+// 0/1/max/any), padding-only and empty packets, packets of unknown types with payload, PRNG-seed
+// packets with and without padding (and with a wrong seed length).  Only the payload bytes of
+// type-0 packets may reach the application.  The last packet is a plain payload packet, so that
+// any leaked byte shifts the stream the receiver is compared on.  Returns the last valid seed sent.
+func encMixed(sess string, rng *vlib.Rng, p []byte) (wire []byte, lastSeed []byte, cls string) {
+	maxP := cint("maxPacketPayloadLength")
+	cls = "ok"
+	emit := func(ty int, payload []byte, pad int, class string) bool {
+		f, c := ref.Enc(sess, ty, payload, pad)
+		if c != "ok" {
+			cls = c + " (" + class + ")"
+			return false
+		}
+		wire = append(wire, f...)
+		r.Count("ref_packet", class)
+		return true
+	}
+	junk := func() bool {
+		switch rng.Intn(9) {
+		case 0:
+			return emit(0, nil, 0, "empty")
+		case 1:
+			return emit(0, nil, 1, "padding-only-1")
+		case 2:
+			return emit(0, nil, maxP, "padding-only-max")
+		case 3:
+			return emit(rng.Range(2, 255), rng.Bytes(rng.Range(1, 200)), rng.Range(0, 100), "unknown-type+payload+padding")
+		case 4:
+			return emit(rng.Range(2, 255), rng.Bytes(maxP), 0, "unknown-type-max-payload")
+		case 5:
+			sd := rng.Bytes(24)
+			if !emit(1, sd, vlib.Pick(rng, []int{1, maxP - 24, rng.Range(2, 500)}), "seed+padding") {
+				return false
+			}
+			lastSeed = sd
+			return true
+		case 6:
+			sd := rng.Bytes(24)
+			if !emit(1, sd, 0, "seed-unpadded") {
+				return false
+			}
+			lastSeed = sd
+			return true
+		case 7:
+			return emit(1, rng.Bytes(vlib.Pick(rng, []int{0, 23, 25, 48})), rng.Range(0, 30), "seed-wrong-length(ignored)")
+		default:
+			return emit(0, nil, rng.Range(2, maxP-1), "padding-only")
+		}
+	}
+	rest := p
+	for len(rest) > 1 {
+		if rng.Intn(3) == 0 && !junk() {
+			return
+		}
+		n := vlib.Pick(rng, []int{1, 1, maxP, maxP - 1, rng.Range(1, maxP), rng.Range(1, 64)})
+		if n > len(rest)-1 {
+			n = len(rest) - 1
+		}
+		room := maxP - n
+		pad := vlib.Pick(rng, []int{0, 1, room, room, rng.Range(0, room), rng.Range(0, imin(room, 32))})
+		if pad > room {
+			pad = room
+		}
+		class := "payload"
+		switch {
+		case n == 1:
+			class += "-1"
+		case n == maxP:
+			class += "-max"
+		}
+		switch {
+		case pad == 0:
+			class += "+nopad"
+		case pad == 1:
+			class += "+pad-1"
+		case pad == room:
+			class += "+pad-max"
+		default:
+			class += "+pad"
+		}
+		if !emit(0, rest[:n], pad, class) {
+			return
+		}
+		rest = rest[n:]
+	}
+	if rng.Intn(2) == 0 && !junk() {
+		return
+	}
+	emit(0, rest, 0, "plain-final")
+	return
+}
+
+// checkDist: the length distribution of a live real endpoint must be ProbDist(seed): the
+// client adopts every well-formed PRNG-seed packet (padded or not), the server none.
+func checkDist(c ccase, who string, ep *o4h.Endpoint, seed []byte) bool {
+	conn, _ := ep.Result()
+	d, err := obfs4.VerifLenDist(conn)
+	if err != nil {
+		violate("lendist-hook-failed", "correspondence", err.Error(), c)
+		return false
+	}
+	sd, _ := drbg.SeedFromBytes(seed)
+	exp, _, _, _ := probdist.VerifTables(probdist.New(sd, 0, framing.MaximumSegmentLength, false))
+	if fmt.Sprint(exp) != fmt.Sprint(d.Values) {
+		what := "the client has not adopted the last PRNG-seed packet it was sent"
+		if who == "server" {
+			what = "the server's length table is no longer the one of its own drbg-seed (it must ignore PRNG-seed packets)"
+		}
+		violate(who+"-length-table-not-from-expected-seed", "impl-oracle",
+			fmt.Sprintf("%s: table has %d values %v…, ProbDist(%x) has %d values %v…", what, len(d.Values), d.Values[:imin(4, len(d.Values))], seed, len(exp), exp[:imin(4, len(exp))]), c)
+		return false
+	}
+	r.Count("length_table_checked", who)
+	return true
+}
+
 func firstDiff(a, b []byte) int {
 	n := imin(len(a), len(b))
 	for i := 0; i < n; i++ {
@@ -351,7 +474,7 @@ func runCase(c ccase) (retry bool) {
 		r.Count("client_keypair_attempts", strconv.Itoa(imin((len(cliTape)-24-8-(len(blob)-64))/32, 6)))
 	} else {
 		shadowC = ref.Fresh("c")
-		rep := ref.CliNew(shadowC, id.NodeID, id.Pub, refTape(rng, c.CliPad, cMin, cMax, true), hour0)
+		rep := ref.CliNew(shadowC, id.NodeID, id.Pub, refTape(rng, c.CliPad, cMin, cMax, true), hour0+int64(c.HourOff))
 		if rep.Class != "ok" {
 			violate("reference-client-failed", "correspondence", "cli.new: "+rep.Raw, c)
 			return
@@ -428,7 +551,7 @@ func runCase(c ccase) (retry bool) {
 		}
 		now := time.Now().UnixNano()
 		for i, ch := range upChunks {
-			rep = ref.SrvFeed(shadowS, ch, hour0, now)
+			rep = ref.SrvFeed(shadowS, ch, hour0+int64(c.HourOff), now)
 			if i < len(upChunks)-1 && rep.Class != "need" {
 				break
 			}
@@ -507,6 +630,7 @@ func runCase(c ccase) (retry bool) {
 
 	// ---------------- data phase
 	exact := 0
+	cliSeed := id.LenSeed // the seed the client must have adopted (inline seed frame, later seed packets)
 	for i := 0; i < c.NWrites; i++ {
 		// client → server
 		p := rng.Bytes(pickSize(rng, c, c.CliIat, i))
@@ -522,13 +646,18 @@ func runCase(c ccase) (retry bool) {
 			exact++
 		} else {
 			var cls string
-			wire, cls = ref.EncPayload(shadowC, p, rng.Range(-1, 200))
+			var sd []byte
+			wire, sd, cls = encMixed(shadowC, rng, p)
+			_ = sd // a seed packet sent to the SERVER must be ignored
 			if cls != "ok" {
 				violate("reference-encoder-failed", "correspondence", "enc: "+cls, c)
 				return
 			}
 		}
 		if srvEp != nil && !deliver(c, "server", srvEp, wire, p, rng) {
+			return
+		}
+		if srvEp != nil && !checkDist(c, "server", srvEp, id.LenSeed) {
 			return
 		}
 		// server → client
@@ -544,13 +673,20 @@ func runCase(c ccase) (retry bool) {
 			exact++
 		} else {
 			var cls string
-			wire, cls = ref.EncPayload(shadowS, p, rng.Range(-1, 200))
+			var sd []byte
+			wire, sd, cls = encMixed(shadowS, rng, p)
+			if sd != nil {
+				cliSeed = sd
+			}
 			if cls != "ok" {
 				violate("reference-encoder-failed", "correspondence", "enc: "+cls, c)
 				return
 			}
 		}
 		if cliEp != nil && !deliver(c, "client", cliEp, wire, p, rng) {
+			return
+		}
+		if cliEp != nil && !checkDist(c, "client", cliEp, cliSeed) {
 			return
 		}
 	}
@@ -609,6 +745,10 @@ func main() {
 			CliPad:  vlib.Pick(rng, pads), SrvPad: vlib.Pick(rng, pads),
 			ChunkUp: vlib.Pick(rng, o4h.ChunkClasses), ChunkDown: vlib.Pick(rng, o4h.ChunkClasses),
 			NWrites: rng.Range(2, 4), Big: r.Thorough() && i%16 == 0}
+		if c.Scenario != "rr" {
+			c.HourOff = []int{0, -1, 1}[(i/3)%3]
+		}
+		r.Count("hour_offset", fmt.Sprintf("%s%+d", c.Scenario, c.HourOff))
 		if i%5 == 0 { // decorrelate the IAT modes from the scenario rotation
 			c.CliIat, c.SrvIat = rng.Intn(3), rng.Intn(3)
 		}
